@@ -1,0 +1,19 @@
+//go:build verif
+
+package proxy
+
+// Verification hooks (build tag "verif" only) for the correspondence harness in /verif.
+
+// VerifCache returns the proxy's cache; the harness asserts it to cache.VerifHooks
+// (clock shift, snapshot, synchronous janitor cycle) and to the Delete method.
+func (p *Proxy) VerifCache() any { return p.cache }
+
+// VerifYield, when set, is called at the named yield points ("flight.afterDo":
+// between singleflight's Do returning and the caller re-opening its own entry).
+var VerifYield func(point string)
+
+func verifYield(point string) {
+	if VerifYield != nil {
+		VerifYield(point)
+	}
+}
